@@ -1,7 +1,11 @@
 """C20: query services.  (a) GetMdState / GetContextStates through the real consumer clients over the loop-back
 transport for generated handle lists, (b) LocalizationStorage.filter_localized_texts / get_supported_languages for
-generated stores and filters (through the service client as well when the provider offers the service)."""
+generated stores and filters (storage driven directly), (c) HISTORIES on one LocalizationStorage: add() calls
+interleaved with GetSupportedLanguages / GetLocalizedText requests that go through the real consumer
+LocalizationServiceClient -> serialised request -> loop-back HTTP -> LocalizationService._on_get_... handler ->
+serialised (validated) response -> parsed result."""
 import json
+import os
 import sys
 
 import mdibrun
@@ -12,7 +16,7 @@ from sdc11073.location import SdcLocation  # noqa: E402
 from sdc11073.provider.porttypes import localizationservice as ls  # noqa: E402
 
 req = json.load(sys.stdin)
-out = {'worlds': [], 'texts': []}
+out = {'worlds': [], 'texts': [], 'hist': []}
 
 for wreq in req.get('worlds', []):
     w = World(mdib_file=wreq['mdib'])
@@ -28,28 +32,70 @@ for wreq in req.get('worlds', []):
             tr.mk_context_state(d.Handle, f'cs{i}a', set_associated=True)
             if i % 2 == 0:
                 tr.mk_context_state(d.Handle, f'cs{i}b')
-    states = [{'ctx': False, 'handle': s.DescriptorHandle, 'dh': s.DescriptorHandle, 'mds': s.source_mds}
-              for s in list(pm.states.objects)]
-    cstates = [{'ctx': True, 'handle': s.Handle, 'dh': s.DescriptorHandle, 'mds': s.source_mds}
-               for s in list(pm.context_states.objects)]
+
+    def tables():
+        return ([{'ctx': False, 'handle': s.DescriptorHandle, 'dh': s.DescriptorHandle, 'mds': s.source_mds}
+                 for s in list(pm.states.objects)],
+                [{'ctx': True, 'handle': s.Handle, 'dh': s.DescriptorHandle, 'mds': s.source_mds}
+                 for s in list(pm.context_states.objects)])
+
+    def ask(queries):
+        answers = []
+        for q in queries:
+            handles = q['handles']
+            try:
+                if q['kind'] == 'state':
+                    r = cons.get_service_client.get_md_state(handles)
+                    items = [[s.is_context_state, s.Handle if s.is_context_state else s.DescriptorHandle]
+                             for s in r.result.MdState.State]
+                else:
+                    r = cons.context_service_client.get_context_states(handles)
+                    items = [[True, s.Handle] for s in r.result.ContextState]
+                answers.append({'q': q, 'items': items})
+            except Exception as ex:  # noqa: BLE001
+                answers.append({'q': q, 'error': repr(ex)[:300]})
+        return answers
+
+    def whole_mdib():
+        """GetMdib / GetMdDescription (no handles) through the consumer client: the states / descriptor handles in the answer"""
+        try:
+            node = cons.get_service_client.get_mdib().p_msg.msg_node
+            sts = [[e.get('Handle') is not None, e.get('Handle') or e.get('DescriptorHandle')]
+                   for e in node.iter() if isinstance(e.tag, str) and e.tag.endswith('}State')
+                   and e.getparent() is not None and e.getparent().tag.endswith('}MdState')]
+            dn = cons.get_service_client.get_md_description().p_msg.msg_node
+            dhs = sorted(e.get('Handle') for e in dn.iter() if isinstance(e.tag, str) and e.get('Handle') is not None)
+            return {'states': sts, 'descriptors': dhs}
+        except Exception as ex:  # noqa: BLE001
+            return {'error': repr(ex)[:300]}
+
+    states, cstates = tables()
     mds = sorted(d.Handle for d in pm.descriptions.objects if d.NODETYPE.localname == 'MdsDescriptor')
     res = {'mdib': wreq['mdib'], 'flag': wreq.get('flag', True), 'states': states, 'cstates': cstates, 'mds': mds,
-           'all_handles': sorted(d.Handle for d in pm.descriptions.objects), 'queries': []}
-    for q in wreq['queries']:
-        handles = q['handles']
-        try:
-            if q['kind'] == 'state':
-                r = cons.get_service_client.get_md_state(handles)
-                items = [[s.is_context_state, s.Handle if s.is_context_state else s.DescriptorHandle]
-                         for s in r.result.MdState.State]
-            else:
-                r = cons.context_service_client.get_context_states(handles)
-                items = [[True, s.Handle] for s in r.result.ContextState]
-            res['queries'].append({'q': q, 'items': items})
-        except Exception as ex:  # noqa: BLE001
-            res['queries'].append({'q': q, 'error': repr(ex)[:300]})
+           'all_handles': sorted(d.Handle for d in pm.descriptions.objects)}
+    res['queries'] = ask(wreq['queries'])
+    res['whole'] = whole_mdib()
+    # phase 2: the MDIB changes between two batches of queries (further context states, one metric removed together
+    # with its state); every answer has to follow the tables as they are at that moment
+    targets = {getattr(d, 'OperationTarget', None) for d in pm.descriptions.objects}
+    victims = sorted(d.Handle for d in pm.descriptions.objects
+                     if d.NODETYPE.localname == 'NumericMetricDescriptor' and d.Handle not in targets
+                     and not pm.descriptions.parent_handle.get(d.Handle))
+    with pm.context_state_transaction() as tr:
+        for i, d in enumerate(ctx_descr):
+            if i % 2 == 1 or i == 0:
+                tr.mk_context_state(d.Handle, f'cs{i}c')
+    res['removed'] = victims[:1]
+    if victims:
+        with pm.descriptor_transaction() as tr:
+            tr.remove_descriptor(victims[0])
+    res['states2'], res['cstates2'] = tables()
+    res['all_handles2'] = sorted(d.Handle for d in pm.descriptions.objects)
+    res['queries2'] = ask(wreq.get('queries2', []))
+    res['whole2'] = whole_mdib()
     out['worlds'].append(res)
-    w.stop()
+    if wreq is not req['worlds'][-1] or req.get('hist'):
+        w.stop()                     # the process ends with os._exit: the last world need not be shut down
 
 W = ['xs', 's', 'm', 'l', 'xl', 'xxl']
 from sdc11073.xml_types import pm_types  # noqa: E402
@@ -81,4 +127,66 @@ for case in req.get('texts', []):
         out['texts'].append({'ids': ids, 'both_rank': keys, 'langs': sorted(store.get_supported_languages())})
     except Exception as ex:  # noqa: BLE001
         out['texts'].append({'error': repr(ex)[:300]})
+
+# ---------------------------------------------------------------- histories through the service handlers
+if req.get('hist'):
+    w = World()
+    cons = w.add_consumer()
+    svc = w.provider.hosted_services.localization_service
+    client = cons.localization_service_client
+    # the Python sort key of the widths+lines mode (TextWidth * n_o_l) for every (width, lines) pair
+    out['area_keys'] = {f'{i},{n}': pm_types.LocalizedTextWidth(W[i]) * n for i in range(6) for n in range(1, 6)}
+
+    def mk(t):
+        return pm_types.LocalizedText(t['text'], lang=t['lang'], ref=t['ref'], version=t['ver'],
+                                      text_width=pm_types.LocalizedTextWidth(W[t['width']]) if t['width'] is not None else None)
+
+    for hcase in req['hist']:
+        ops = hcase['ops']
+        objs = {}
+
+        def obj(t):
+            # 'same' = index of an earlier text whose Python OBJECT is stored again
+            if t.get('same') is not None and t['same'] in objs:
+                return objs[t['same']]
+            o = mk(t)
+            objs[t['n']] = o
+            return o
+        start = 0
+        if ops and ops[0]['op'] == 'add' and hcase.get('ctor'):
+            svc.localization_storage = ls.LocalizationStorage([obj(t) for t in ops[0]['texts']])
+            start = 1
+        else:
+            svc.localization_storage = ls.LocalizationStorage()
+        answers = []
+        for op in ops[start:]:
+            n0 = len(w.net.log)
+            try:
+                if op['op'] == 'add':
+                    w.provider.localization_storage.add(*[obj(t) for t in op['texts']])
+                    continue
+                if op['op'] == 'langs':
+                    r = client.get_supported_languages()
+                    ans = {'langs': [str(x) for x in r.result.Lang]}
+                else:
+                    f = op['filter']
+                    r = client.get_localized_texts(f['refs'] or None, f['version'], f['langs'] or None,
+                                                   [pm_types.LocalizedTextWidth(W[x]) for x in f['widths']] or None,
+                                                   f['lines'] or None)
+                    ans = {'texts': [[t.Ref, t.Lang, t.Version, None if t.TextWidth is None else str(t.TextWidth.value), t.text]
+                                     for t in r.result.Text]}
+            except Exception as ex:  # noqa: BLE001
+                ans = {'error': repr(ex)[:300]}
+            ex_ = w.net.log[n0:]
+            ans['wire'] = len(ex_)
+            ans['status'] = [e.status for e in ex_]
+            ans['to_handler'] = all((b'GetSupportedLanguages' if op['op'] == 'langs' else b'GetLocalizedText') in e.decoded_body()
+                                    for e in ex_)
+            answers.append(ans)
+        # what the storage really holds at the end (every entry, every version)
+        final = [[t.Ref, t.Lang, t.Version, None if t.TextWidth is None else str(t.TextWidth.value), t.text]
+                 for v in svc.localization_storage._localized_texts.values() for t in v]  # noqa: SLF001
+        out['hist'].append({'answers': answers, 'final': final})
 print(json.dumps(out))
+sys.stdout.flush()
+os._exit(0)
